@@ -2049,15 +2049,27 @@ func (t *IntersectionType) Equal(other Type) bool {
 		return false
 	}
 
-	intersectionSet := t.IntersectionSet()
-	otherIntersectionSet := otherType.IntersectionSet()
+	// Compare the intersected types as sets of type IDs:
+	// composite and interface types are pointers, and equal types
+	// need not be represented by the same pointer
+	// (e.g. when the two types were decoded or constructed separately)
 
-	if len(intersectionSet) != len(otherIntersectionSet) {
+	typeIDs := make(map[string]struct{}, len(t.Types))
+	for _, typ := range t.Types {
+		typeIDs[typ.ID()] = struct{}{}
+	}
+
+	otherTypeIDs := make(map[string]struct{}, len(otherType.Types))
+	for _, typ := range otherType.Types {
+		otherTypeIDs[typ.ID()] = struct{}{}
+	}
+
+	if len(typeIDs) != len(otherTypeIDs) {
 		return false
 	}
 
-	for typ := range intersectionSet { //nolint:maprange
-		_, ok := otherIntersectionSet[typ]
+	for typeID := range typeIDs { //nolint:maprange
+		_, ok := otherTypeIDs[typeID]
 		if !ok {
 			return false
 		}
